@@ -74,6 +74,14 @@ func (r *Result) Invalid(format string, a ...any) {
 	r.Verdict = "invalid"
 	r.Detail = fmt.Sprintf(format, a...)
 }
+// Skip marks a generated case as outside the property's domain (not an error).
+func (r *Result) Skip(format string, a ...any) {
+	if r.Verdict == "violation" {
+		return
+	}
+	r.Verdict = "skip"
+	r.Detail = fmt.Sprintf(format, a...)
+}
 func (r *Result) Bad() bool { return r.Verdict == "violation" || r.Verdict == "invalid" }
 
 type Profile struct {
